@@ -68,20 +68,20 @@ static void s1_item(long it,void *ctx){ int st; (void)ctx; st=in_child(s1_child,
 /* ------------------------------------------------------------------ S2 */
 typedef struct { int ka,kb; int first; long k0,k1; int bound2; long j0,j1; int fx; } s2job;
 static s2job *JOBS2; static long NJOBS2;
-typedef struct { int kind[2]; cb_schedule s; uint64_t h[2]; long steps[2]; } s2run;
+typedef struct { int n; int kind[3]; cb_schedule s; uint64_t h[3]; long steps[3]; } s2run;
 static s2run *RUN;   /* per-worker shared slot for the child to report into */
 static cb_record *RECBUF;
 
 static bctx TC[3];
 static void *thr(void *a){ bctx *c=a; int i; cb_thread_enter(c->tid); for(i=0;i<KINDS[c->kind].nops;i++) KINDS[c->kind].op(c,i); cb_thread_exit(); return NULL; }
 static void s2_child(void *a){
-   s2run *r=a; pthread_t th[2]; int i;
-   for(i=0;i<2;i++){ memset(&TC[i],0,sizeof(bctx)); TC[i].kind=r->kind[i]; TC[i].tid=i+1; b_alloc(&TC[i]); }
-   cb_sched_setup(2,&r->s,RECBUF);
-   for(i=0;i<2;i++) pthread_create(&th[i],NULL,thr,&TC[i]);
+   s2run *r=a; pthread_t th[3]; int i, n=r->n?r->n:2;
+   for(i=0;i<n;i++){ memset(&TC[i],0,sizeof(bctx)); TC[i].kind=r->kind[i]; TC[i].tid=i+1; b_alloc(&TC[i]); }
+   cb_sched_setup(n,&r->s,RECBUF);
+   for(i=0;i<n;i++) pthread_create(&th[i],NULL,thr,&TC[i]);
    cb_sched_start();
-   for(i=0;i<2;i++) pthread_join(th[i],NULL);
-   for(i=0;i<2;i++){ r->h[i]=TC[i].h; r->steps[i]=cb_steps(i+1); }
+   for(i=0;i<n;i++) pthread_join(th[i],NULL);
+   for(i=0;i<n;i++){ r->h[i]=TC[i].h; r->steps[i]=cb_steps(i+1); }
 }
 /* recording run for kind k alone as thread 1 (thread 2 = trivial repacketizer-free body? no: run k as both threads serially) */
 static void rec_child(void *a){
@@ -115,6 +115,28 @@ static void s2_item(long it,void *ctx){
    }
 }
 
+/* ---- three threads, one preemption: first thread a is preempted at the first occurrence of every distinct (function, entry/exit),
+   either other thread runs next, and at every thread exit either remaining thread may be picked */
+typedef struct { int kind[3]; int first; long k0,k1; } s3job;
+static s3job *JOBS3; static long NJOBS3;
+static void s3_item(long it,void *ctx){
+   s3job *j=&JOBS3[it]; s2run *r=&RUN[mc_worker_id()]; long k; int to,ec,i,st; char names[200]; (void)ctx;
+   snprintf(names,sizeof names,"%s|%s|%s",KINDS[j->kind[0]].name,KINDS[j->kind[1]].name,KINDS[j->kind[2]].name);
+   for(k=j->k0;k<j->k1;k++) for(to=1;to<=3;to++) for(ec=0;ec<2;ec++){
+      if (to==j->first) continue;
+      memset(r,0,sizeof *r); r->n=3; for(i=0;i<3;i++) r->kind[i]=j->kind[i];
+      r->s.first=j->first; r->s.npre=1; r->s.pre[0].tid=j->first; r->s.pre[0].step=REFS->fx[j->kind[j->first-1]][k]; r->s.pre[0].to=to;
+      for(i=0;i<5;i++) r->s.exit_choice[i]=ec;
+      mc_case("s3","triple=%s first=T%d preempt at yield %ld -> T%d exit_choice=%d",names,j->first,r->s.pre[0].step,to,ec);
+      st=in_child(s2_child,r); MC_INC(c_sched); MC_INC(c_eval); MC_ADD(c_trans,4);
+      mc_set_add(outcomes,mc_mix(mc_mix(mc_mix(r->h[0],r->h[1]),r->h[2]),j->kind[0]*256+j->kind[1]*16+j->kind[2]));
+      if (st!=0){ char sig[240]; snprintf(sig,sizeof sig,"crash:s3:%s",names); MC_INC(c_div); mc_fail(sig,"schedule child ended with status %x (first=T%d, preempt at yield %ld -> T%d, exit choice %d)",st,j->first,r->s.pre[0].step,to,ec); continue; }
+      for(i=0;i<3;i++) if(r->h[i]!=REFS->solo[r->kind[i]]){ char sig[240]; snprintf(sig,sizeof sig,"output_differs_from_solo:s3:%s",names); MC_INC(c_div);
+         mc_fail(sig,"thread T%d (%s) produced %016llx under schedule [first=T%d; preempt at its yield %ld -> T%d; at exits pick remaining thread #%d], alone it produces %016llx",i+1,KINDS[r->kind[i]].name,(unsigned long long)r->h[i],j->first,r->s.pre[0].step,to,ec,(unsigned long long)REFS->solo[r->kind[i]]); break; }
+      if (k==j->k0&&to!=j->first&&ec==0&&it<1) mc_sample("S2 three threads (%s): T%d starts, preempted at yield %ld, T%d runs to completion, then the lowest remaining thread, then the last: outputs == solo outputs",names,j->first,r->s.pre[0].step,to);
+   }
+}
+
 int main(int argc,char **argv){
    const char *mode; int i,j,k;
    mc_init(argc,argv,"C14","dpor");
@@ -142,6 +164,12 @@ int main(int argc,char **argv){
       if (b2){ /* two preemptions at first occurrences of distinct functions; same-kind pairs and pairs with the decoder */
          for(i=0;i<NKINDS;i++) for(j=i;j<NKINDS;j++){ int f; if(!(i==j||i==2||j==2||i==8||j==8)) continue; for(f=1;f<=2;f++){ int ka=f==1?i:j,kb=f==1?j:i; long s; if(i==j&&f==2) continue; for(s=0;s<REFS->nfo[ka];s+=4){ s2job jb={i,j,f,s,s+4<REFS->nfo[ka]?s+4:REFS->nfo[ka],1,0,REFS->nfo[kb],0}; if(NJOBS2<cap) JOBS2[NJOBS2++]=jb; } } } }
       mc_par(NJOBS2,s2_item,NULL);
+      {  /* three-thread schedules: same-kind triples (symmetric: first = T1 only) in both tiers, four mixed triples with every first thread in thorough */
+         static const int MIX[4][3]={{0,2,8},{3,4,5},{1,9,7},{6,8,4}}; long c3=20000; int t,f; JOBS3=calloc(c3,sizeof(s3job)); NJOBS3=0;
+         for(k=0;k<NKINDS;k++){ long s; for(s=0;s<REFS->nfx[k];s+=50){ s3job jb={{k,k,k},1,s,s+50<REFS->nfx[k]?s+50:REFS->nfx[k]}; if(NJOBS3<c3) JOBS3[NJOBS3++]=jb; } }
+         if (MC.tier) for(t=0;t<4;t++) for(f=1;f<=3;f++){ int kk=MIX[t][f-1]; long s; for(s=0;s<REFS->nfx[kk];s+=50){ s3job jb={{MIX[t][0],MIX[t][1],MIX[t][2]},f,s,s+50<REFS->nfx[kk]?s+50:REFS->nfx[kk]}; if(NJOBS3<c3) JOBS3[NJOBS3++]=jb; } }
+         mc_par(NJOBS3,s3_item,NULL);
+      }
       { mc_ctr *st=mc_counter("states"),*dn=mc_counter("distinct_nontrivial"),*tv=mc_counter("traces_validated_against_impl"); *st=*c_sched; *dn=mc_set_count(outcomes); *tv=*c_sched; }
    }
    return mc_finish();
